@@ -288,7 +288,10 @@ class Inliner:
         for f in formals:
             a = bound[f]
             if f in rename:
-                # accumulator threaded through the helper: X = helper(.., X, ..) with `return X`
+                # accumulator threaded through the helper: X = helper(.., X, ..) with `return X` needs no binding; a
+                # formal that is returned under another name of the caller (Y = helper(X)) starts as the actual argument
+                if not (isinstance(a, ast.Name) and a.id == rename[f]):
+                    prelude.append(ast.Assign(targets=[ast.Name(id=rename[f], ctx=ast.Store())], value=copy.deepcopy(a)))
                 continue
             if f not in stored and (_is_pure(a) or uses.get(f, 0) <= 1 and not body):
                 subst[f] = a
